@@ -277,4 +277,113 @@ theorem getBytesCached_specOn (Adm : Checkpoint → Prop) (hk : KeyDetOn Adm) (C
     | none => exact ⟨rfl, h2⟩
     | some b => exact ⟨rfl, h2⟩
 
+/-! ### the LRU never holds more blocks than its capacity, nor one block twice -/
+
+def CacheSized (c : BlockCache) : Prop :=
+  c.entries.length ≤ c.cap ∧ (c.entries.map (·.1)).Nodup
+
+theorem cacheSized_new (cap : Nat) : CacheSized (BlockCache.new cap) := by
+  simp [CacheSized, BlockCache.new]
+
+theorem filter_keys_nodup (l : List (Nat × Bytes)) (key : Nat) (h : (l.map (·.1)).Nodup) :
+    ((l.filter fun x => x.1 ≠ key).map (·.1)).Nodup ∧ key ∉ (l.filter fun x => x.1 ≠ key).map (·.1) := by
+  constructor
+  · exact (List.Sublist.map _ List.filter_sublist).nodup h
+  · intro hm
+    obtain ⟨x, hx, hk⟩ := List.mem_map.mp hm
+    have := (List.mem_filter.mp hx).2
+    simp at this
+    exact this hk
+
+theorem cache_get_sized (c : BlockCache) (key : Nat) (h : CacheSized c) :
+    CacheSized (c.get key).2 ∧ (c.get key).2.cap = c.cap := by
+  unfold BlockCache.get
+  by_cases h0 : c.cap = 0
+  · simp only [h0, if_true]; exact ⟨by simpa [CacheSized, h0] using h, by simp [h0]⟩
+  · simp only [h0, if_false]
+    cases hf : c.entries.find? (fun e => decide (e.1 = key)) with
+    | none => exact ⟨h, rfl⟩
+    | some e =>
+      have hmem : e ∈ c.entries := List.mem_of_find?_eq_some hf
+      have hk : e.1 = key := by simpa using List.find?_some hf
+      obtain ⟨hlen, hnd⟩ := h
+      obtain ⟨f1, f2⟩ := filter_keys_nodup c.entries key hnd
+      refine ⟨⟨?_, ?_⟩, rfl⟩
+      · -- the promoted entry was in the list: the filtered list is strictly shorter
+        have hlt : (c.entries.filter fun x => x.1 ≠ key).length < c.entries.length := by
+          apply List.length_filter_lt_length_iff_exists.mpr
+          exact ⟨e, hmem, by simp [hk]⟩
+        simp only [List.length_cons]; omega
+      · simp only [List.map_cons, List.nodup_cons]
+        exact ⟨by rw [hk]; exact f2, f1⟩
+
+theorem cache_put_sized (c : BlockCache) (key : Nat) (b : Bytes) (h : CacheSized c) :
+    CacheSized (c.put key b) ∧ (c.put key b).cap = c.cap := by
+  obtain ⟨hlen, hnd⟩ := h
+  unfold BlockCache.put
+  by_cases h0 : c.cap = 0
+  · simp only [h0, if_true]; exact ⟨⟨by omega, hnd⟩, by simp [h0]⟩
+  · simp only [h0, if_false]
+    obtain ⟨f1, f2⟩ := filter_keys_nodup c.entries key hnd
+    split
+    · rename_i hany
+      refine ⟨⟨?_, ?_⟩, rfl⟩
+      · obtain ⟨e, hmem, hk⟩ := List.any_eq_true.mp hany
+        have hlt : (c.entries.filter fun x => x.1 ≠ key).length < c.entries.length := by
+          apply List.length_filter_lt_length_iff_exists.mpr
+          exact ⟨e, hmem, by simpa using hk⟩
+        simp only [List.length_cons]; omega
+      · simp only [List.map_cons, List.nodup_cons]; exact ⟨f2, f1⟩
+    · rename_i hany
+      have hnot : key ∉ c.entries.map (·.1) := by
+        intro hm
+        obtain ⟨x, hx, hk⟩ := List.mem_map.mp hm
+        exact hany (List.any_eq_true.mpr ⟨x, hx, by simpa using hk⟩)
+      split
+      · refine ⟨⟨?_, ?_⟩, rfl⟩
+        · simp only [List.length_cons, List.length_dropLast]; omega
+        · simp only [List.map_cons, List.nodup_cons]
+          refine ⟨?_, (List.Sublist.map _ (List.dropLast_sublist _)).nodup hnd⟩
+          intro hm
+          obtain ⟨x, hx, hk⟩ := List.mem_map.mp hm
+          exact hnot (List.mem_map.mpr ⟨x, List.dropLast_subset _ hx, hk⟩)
+      · refine ⟨⟨?_, ?_⟩, rfl⟩
+        · simp only [List.length_cons]; omega
+        · simp only [List.map_cons, List.nodup_cons]; exact ⟨hnot, hnd⟩
+
+theorem readBlock_sized (C : Compression) (sf : StoreFile) (c : BlockCache) (cp : Checkpoint) (h : CacheSized c) :
+    CacheSized (readBlock C sf c cp).2 ∧ (readBlock C sf c cp).2.cap = c.cap := by
+  unfold readBlock
+  obtain ⟨g1, g2⟩ := cache_get_sized c cp.byteStart h
+  rcases hget : c.get cp.byteStart with ⟨ob, c'⟩
+  rw [hget] at g1 g2
+  cases ob with
+  | some b => exact ⟨g1, g2⟩
+  | none =>
+    cases hr : readBlockRaw C sf cp with
+    | none => exact ⟨g1, g2⟩
+    | some b =>
+      obtain ⟨p1, p2⟩ := cache_put_sized c' cp.byteStart b g1
+      exact ⟨p1, by rw [p2]; exact g2⟩
+
+theorem runGets_sized (C : Compression) (sf : StoreFile) (ds : List Nat) : ∀ (c : BlockCache), CacheSized c →
+    CacheSized (runGets C sf c ds).2 ∧ (runGets C sf c ds).2.cap = c.cap := by
+  induction ds with
+  | nil => intro c h; exact ⟨h, rfl⟩
+  | cons d ds ih =>
+    intro c h
+    simp only [runGets]
+    have step : CacheSized (getBytesCached C sf c d).2 ∧ (getBytesCached C sf c d).2.cap = c.cap := by
+      unfold getBytesCached
+      cases hs : seek sf.index d with
+      | none => exact ⟨h, rfl⟩
+      | some cp =>
+        obtain ⟨r1, r2⟩ := readBlock_sized C sf c cp h
+        simp only
+        generalize readBlock C sf c cp = rb at r1 r2 ⊢
+        obtain ⟨ob, c'⟩ := rb
+        cases ob <;> exact ⟨r1, r2⟩
+    obtain ⟨i1, i2⟩ := ih _ step.1
+    exact ⟨i1, by rw [i2]; exact step.2⟩
+
 end TantivyModel.Store
